@@ -20,6 +20,7 @@ var c05Params = &HistoryParams{MinOps: 12, MaxOps: 35, Cloud: 1, Lag: true, Rang
 func genC05(all bool) *rapid.Generator[c05Case] {
 	return rapid.Custom(func(t *rapid.T) c05Case {
 		c := c05Case{Case: GenHistory(t, c05Params), AllIndices: all}
+		addReservationStories(t, &c.Case, true)
 		n := rapid.IntRange(4, 10).Draw(t, "nFaults")
 		for i := 0; i < n; i++ {
 			c.FaultPicks = append(c.FaultPicks, [3]int{rapid.IntRange(0, 1000).Draw(t, "opPick"), rapid.IntRange(0, 30).Draw(t, "kPick"),
